@@ -202,6 +202,29 @@ func (r *Run) Do(keys []string) int {
 				}
 			}
 		}
+		// relational laws of this function (second pass: fragments + substitution)
+		if rep.Err == "" && len(fi.C.Laws) > 0 {
+			lx := newExec(r.W, fi, r.Active)
+			lx.lawMode = true
+			clearFacts()
+			if err := lx.verifyFunc(); err != nil {
+				rep.Err = err.Error()
+				engineErr = true
+				fmt.Fprintln(os.Stderr, "govc:", err)
+			}
+			for _, o := range lx.Obls {
+				if r.Only != "" && !strings.Contains(o.Name, r.Only) {
+					continue
+				}
+				if r.keep(o) {
+					all = append(all, o)
+					rep.Obls++
+				}
+			}
+			for c := range lx.usedContracts {
+				x.usedContracts[c] = true
+			}
+		}
 		rep.Trivial = x.counters["trivial"]
 		for c := range x.usedContracts {
 			rep.Contracts = append(rep.Contracts, c)
